@@ -8,6 +8,7 @@
 #include <cstdint>
 #include <set>
 #include <string>
+#include <unordered_map>
 #include <vector>
 
 namespace c13 {
@@ -31,15 +32,48 @@ inline const char* codeName(int c) {
 }
 
 static const std::string NUL = "~";  // the null string (namespace / prefix / localName of DOM Level 1 nodes)
+
+// interned string: the model is copied for every call that may succeed, so its nodes keep string ids instead of std::strings
+struct IStr {
+    int id;
+    static std::vector<std::string>& tab() { static std::vector<std::string> t; return t; }
+    static int intern(const std::string& v) {
+        static std::unordered_map<std::string, int> m;
+        auto it = m.find(v);
+        if (it != m.end()) return it->second;
+        tab().push_back(v);
+        m[v] = (int)tab().size() - 1;
+        return (int)tab().size() - 1;
+    }
+    IStr() : id(intern("")) {}
+    IStr(const std::string& v) : id(intern(v)) {}
+    IStr(const char* v) : id(intern(v)) {}
+    const std::string& s() const { return tab()[id]; }
+    operator const std::string&() const { return s(); }
+    size_t size() const { return s().size(); }
+    bool empty() const { return s().empty(); }
+    bool operator==(const IStr& o) const { return id == o.id; }
+    bool operator!=(const IStr& o) const { return id != o.id; }
+    bool operator==(const std::string& o) const { return s() == o; }
+    bool operator!=(const std::string& o) const { return s() != o; }
+    bool operator==(const char* o) const { return s() == o; }
+    bool operator!=(const char* o) const { return s() != o; }
+};
+inline bool operator==(const std::string& a, const IStr& b) { return a == b.s(); }
+inline bool operator!=(const std::string& a, const IStr& b) { return a != b.s(); }
+inline std::string operator+(const std::string& a, const IStr& b) { return a + b.s(); }
+inline std::string operator+(const IStr& a, const std::string& b) { return a.s() + b; }
+inline std::string operator+(const char* a, const IStr& b) { return a + b.s(); }
+inline std::string operator+(const IStr& a, const char* b) { return a.s() + b; }
 static const char* const XML_NS = "http://www.w3.org/XML/1998/namespace";
 
 struct RNode {
     int type = 0;
     bool live = true;
-    std::string name;                                  // nodeName of EL / ATTR
+    IStr name;                                         // nodeName of EL / ATTR
     bool nsAware = false;                              // created by a namespace-aware method (localName != null)
-    std::string ns = NUL, prefix = NUL, local = NUL;
-    std::string data;                                  // TEXT / COMMENT
+    IStr ns = NUL, prefix = NUL, local = NUL;
+    IStr data;                                         // TEXT / COMMENT
     int parent = -1, ownerEl = -1, doc = -1;           // doc: owner document id (a DOC owns itself)
     std::vector<int> kids, attrs;
     int udata = 0;                                     // user data under key "u": 0 none, 1 = token A
@@ -272,7 +306,7 @@ struct Ref {
             if (d.n[k].type == TEXT) {
                 while (i + 1 < d.n[p].kids.size() && d.n[d.n[p].kids[i + 1]].type == TEXT) {
                     int nx = d.n[p].kids[i + 1];
-                    d.n[k].data += d.n[nx].data;
+                    d.n[k].data = d.n[k].data.s() + d.n[nx].data.s();
                     d.detach(nx);                 // the absorbed node stays usable (Xerces does not release it)
                 }
                 if (d.n[k].data.empty()) { d.detach(k); continue; }
@@ -348,7 +382,7 @@ struct Ref {
             if (!validName(p)) e.errs.insert(INVALID_CHARACTER_ERR);
             if (p.find(':') != std::string::npos) e.errs.insert(NAMESPACE_ERR);
             if (p == "xml" && T.ns != XML_NS) e.errs.insert(NAMESPACE_ERR);
-            if (e.errs.empty()) { T.prefix = p; T.name = p + ":" + T.local; }
+            if (e.errs.empty()) { T.prefix = p; T.name = p + ":" + T.local.s(); }
             break;
         }
         case OP_USERDATA: e.retData = T.udata; T.udata = op.v == 0 ? 1 : 0; break;
@@ -454,24 +488,27 @@ struct Ref {
             if (a != -1) { d.detachAttr(a); d.kill(a); }
             break;
         }
-        case OP_APPENDDATA: T.data += DATASTR; break;
+        case OP_APPENDDATA: T.data = T.data.s() + DATASTR; break;
         case OP_INSERTDATA:
             if ((size_t)op.v > T.data.size()) e.errs.insert(INDEX_SIZE_ERR);
-            else T.data.insert(op.v, DATASTR);
+            else { std::string v = T.data; v.insert(op.v, DATASTR); T.data = v; }
             break;
         case OP_DELETEDATA: case OP_REPLACEDATA: case OP_SUBSTRING: {
             size_t len = T.data.size(), off = op.v, cnt = op.w;
             if (off > len) { e.errs.insert(INDEX_SIZE_ERR); break; }
             if (off + cnt > len) cnt = len - off;
-            if (op.code == OP_SUBSTRING) { e.hasStr = true; e.str = T.data.substr(off, cnt); break; }
-            T.data.erase(off, cnt);
-            if (op.code == OP_REPLACEDATA) T.data.insert(off, DATASTR);
+            if (op.code == OP_SUBSTRING) { e.hasStr = true; e.str = T.data.s().substr(off, cnt); break; }
+            std::string v = T.data;
+            v.erase(off, cnt);
+            if (op.code == OP_REPLACEDATA) v.insert(off, DATASTR);
+            T.data = v;
             break;
         }
         case OP_SPLIT: {
             if ((size_t)op.v > T.data.size()) { e.errs.insert(INDEX_SIZE_ERR); break; }
-            int t = d.newText(d.n[op.t].doc, d.n[op.t].data.substr(op.v));
-            d.n[op.t].data.resize(op.v);
+            std::string whole = d.n[op.t].data;
+            int t = d.newText(d.n[op.t].doc, whole.substr(op.v));
+            d.n[op.t].data = whole.substr(0, op.v);
             int p = d.n[op.t].parent;
             if (p != -1) {
                 auto& k = d.n[p].kids;
